@@ -377,3 +377,47 @@ Example ex_reuse_after_remove :
   exists q, @q_run N ([] ++ OIns 1 :: [ORem 0] ++ OIns 2 :: []) =
     Ok (q, [] ++ RIns (Some 0) :: [RRem (Some 1)] ++ RIns (Some 0) :: []).
 Proof. eexists. vm_compute. reflexivity. Qed.
+
+(* ---------------------------------------------- the prefilled table (driver) *)
+Lemma scan_from_end {T} (v : list (option T)) : scan_from (lenN v) v = None.
+Proof. unfold scan_from, lenN. rewrite Nat2N.id, skipn_all. reflexivity. Qed.
+
+Lemma prefill_insert (pre : list N) (v : N) :
+  lenN pre <= 32767 ->
+  q_insert (c15_prefill pre) v = Ok (c15_prefill (pre ++ [v]), Some (lenN pre)).
+Proof.
+  intros Hl. unfold q_insert, c15_prefill. cbn [q_count q_curr q_vec].
+  assert (Hlm : lenN (map (@Some N) pre) = lenN pre) by (unfold lenN; rewrite map_length; reflexivity).
+  cbv [ins_full]. destruct (N.ltb_spec 65535 (2 * lenN pre)) as [|_]; [lia|].
+  cbv [ins_scan_from_curr]. rewrite Hlm.
+  assert (Hfound : (if ins_scan (lenN pre) (lenN pre) then scan_from (lenN pre) (map (@Some N) pre) else None) = None).
+  { destruct (ins_scan _ _); [|reflexivity]. rewrite <- Hlm. apply scan_from_end. }
+  rewrite Hfound. rewrite <- Hlm at 1. rewrite slot_at_app_last.
+  cbv [idx_limit ins_bump ins_count_inc ins_curr_inc]. rewrite N.eqb_refl.
+  destruct (N.ltb_spec (lenN pre) 65536) as [_|]; [|lia].
+  rewrite map_app. cbn [map].
+  assert (Happ : lenN (pre ++ [v]) = lenN pre + 1) by (unfold lenN; rewrite app_length; cbn [length]; lia).
+  rewrite Happ. reflexivity.
+Qed.
+
+(* c15_prefill vals is the table that inserting vals into the empty table gives *)
+Theorem fill_state (suf : list N) : forall pre,
+  lenN (pre ++ suf) <= 32768 ->
+  exists tr, q_exec (c15_prefill pre) (map OIns suf) = Ok (c15_prefill (pre ++ suf), tr).
+Proof.
+  induction suf as [|v suf IH]; intros pre Hl.
+  - exists []. rewrite app_nil_r. reflexivity.
+  - assert (Hpre : lenN pre <= 32767) by (unfold lenN in *; rewrite app_length in Hl; cbn [length] in Hl; lia).
+    cbn [map q_exec q_step]. rewrite (prefill_insert pre v Hpre). cbn [bind].
+    destruct (IH (pre ++ [v])) as (tr & E); [rewrite <- app_assoc; exact Hl|].
+    rewrite E. cbn [bind]. rewrite <- app_assoc. cbn [app]. eexists. reflexivity.
+Qed.
+
+Example ex_prefill : c15_prefill [] = q_new. Proof. reflexivity. Qed.
+
+Corollary fill_state_run (vals : list N) :
+  lenN vals <= 32768 -> exists tr, q_run (map OIns vals) = Ok (c15_prefill vals, tr).
+Proof.
+  intros H. unfold q_run. rewrite q_run_from_exec. change (@q_new N) with (c15_prefill []).
+  apply (fill_state vals []). exact H.
+Qed.
